@@ -1,9 +1,11 @@
 import Tally.Model.Sanitize
 import Tally.Spec.C06
 import TallyProofs.Lemmas.Utf8Lemmas
+import TallyProofs.Lemmas.ScopeClean
 /-!
 # C06 — everything handed to a reporter is sanitized; valid input passes unchanged
-Property theorems only (helper lemmas live in TallyProofs/Lemmas/Utf8Lemmas.lean).
+Property theorems only (helper lemmas live in TallyProofs/Lemmas/Utf8Lemmas.lean and, for the end-to-end
+clause over the scope model, in TallyProofs/Lemmas/ScopeClean.lean).
 -/
 namespace Tally.Props.C06
 open Tally Tally.Utf8 Tally.Sanitize
@@ -79,5 +81,133 @@ code passed through unchanged -/
 example : Spec.C06.holds { ranges := [(0x20, 0x10FFFF)], chars := [] } 95 [97, 0xFF, 98]
     (sanitize { ranges := [(0x20, 0x10FFFF)], chars := [] } 95 [97, 0xFF, 98]) = none := spec_holds _ _ _
 
-end Tally.Props.C06
+/-! ## end to end: every string the scope model hands to a reporter is sanitized
 
+`Tally.Scope.mkRoot` sanitizes the root prefix, the separator (after defaulting an empty one to `.`) and the
+root tags; `step` sanitizes every subscope name, metric name and `Tagged` map before it stores them, and a
+fully-qualified name is `prefix ++ separator ++ name` of such pieces (`fqn`).  The invariant
+`Tally.Scope.StOK` ("separator, every scope's prefix, tags and stored metric names, every timer handle's
+stored identity are clean") is proved once for abstract predicates in `Lemmas/ScopeClean.lean`; here it is
+instantiated with `Clean`.  Plain `Reach` is enough (every program; **no** `SanDistinct` side condition on
+`Tagged` maps and no registry invariant): cleanliness is a property of the single entries of a tag map, and
+every entry of an overlay is an entry of one of the overlaid maps, whichever entry wins. -/
+
+open Tally.KeyGen Tally.Scope
+
+/-- a string is sanitizer-clean for a character class: every rune of it is allowed, or is the (normalised)
+replacement rune -/
+def Clean (c : ValidChars) (rep : Int) (s : Bytes) : Prop :=
+  ∀ it ∈ decodeAll s, (okItem c it = true) ∨ (it.rune = normRep rep ∧ it.isError = false)
+
+theorem clean_sanitize (c : ValidChars) (rep : Int) (s : Bytes) : Clean c rep (sanitize c rep s) :=
+  output_allowed_or_replacement c rep s
+
+theorem clean_append {c : ValidChars} {rep : Int} {a b : Bytes} (ha : Clean c rep a) (hb : Clean c rep b) :
+    Clean c rep (a ++ b) := concat_closed c rep a b ha hb
+
+/-- `Clean` = "is a fixed point of the sanitizer" -/
+theorem clean_iff_fixed (c : ValidChars) (rep : Int) (s : Bytes) :
+    Clean c rep s ↔ sanitize c rep s = s := by
+  constructor
+  · intro h
+    apply sanitize_fixed
+    intro it hit
+    by_cases hok : okItem c it = true
+    · exact fixItem_ok hok
+    · rcases h it hit with h1 | ⟨hr, he⟩
+      · exact absurd h1 hok
+      · rw [fixItem_not_ok (by simpa using hok)]
+        have hn := nonErr_of_mem_decodeAll s it hit he
+        have henc : encodeRune rep = it.raw := by
+          rw [← hn.enc, hr, encodeRune_rep, encodeRune_ofNat _ (normRep_valid rep)]
+        cases it with
+        | mk rune raw =>
+          simp only at hr henc
+          subst hr henc
+          rfl
+  · intro h
+    rw [← h]
+    exact clean_sanitize c rep s
+
+/-- the three configured sanitizers establish `Clean` for their class; clean names concatenate -/
+theorem sanOK_clean {cfg : Cfg} {sc : SanCfg} (hsan : cfg.san = some sc) :
+    SanOK (Clean sc.name sc.rep) (Clean sc.key sc.rep) (Clean sc.value sc.rep) cfg where
+  name := fun s => by simp only [sanName, hsan]; exact clean_sanitize _ _ s
+  key := fun s => by simp only [sanKey, hsan]; exact clean_sanitize _ _ s
+  value := fun s => by simp only [sanValue, hsan]; exact clean_sanitize _ _ s
+  cat := fun _ _ ha hb => clean_append ha hb
+
+/-- **everything handed to a reporter is sanitized.**  For every configuration with sanitize options `sc`,
+every root prefix / separator / root tags, every program (`Reach`: the state after any list of operations,
+no side condition), every further operation `op` and every event `e` it emits (through any of the three
+`Out` constructors, see `outEvents`): if the event carries a name and tags (`alloc`, `counter`, `gauge`,
+`timer`, `hval`, `hdur`; `flush` and `close` carry nothing), the name is `Clean` for the NAME class, every
+tag key for the KEY class and every tag value for the VALUE class of `sc`. -/
+theorem reported_strings_sanitized {cfg : Cfg} {sc : SanCfg} (hsan : cfg.san = some sc)
+    {pfx sep : Bytes} {tags : TagMap} {st : St} (hr : Reach cfg pfx sep tags st) (op : Op) :
+    ∀ e ∈ outEvents (step st op).2, ∀ n t, eventNameTags e = some (n, t) →
+      Clean sc.name sc.rep n ∧ ∀ kv ∈ t, Clean sc.key sc.rep kv.1 ∧ Clean sc.value sc.rep kv.2 :=
+  fun e he n t hnt => reach_events_ok (sanOK_clean hsan) hr op e he n t hnt
+
+/-- the same with the list of operations spelled out -/
+theorem reported_strings_sanitized_run {cfg : Cfg} {sc : SanCfg} (hsan : cfg.san = some sc)
+    (pfx sep : Bytes) (tags : TagMap) (ops : List Op) (op : Op) :
+    ∀ e ∈ outEvents (step (runOps (mkRoot cfg pfx sep tags) ops) op).2,
+      ∀ n t, eventNameTags e = some (n, t) →
+        Clean sc.name sc.rep n ∧ ∀ kv ∈ t, Clean sc.key sc.rep kv.1 ∧ Clean sc.value sc.rep kv.2 :=
+  reported_strings_sanitized hsan ⟨ops, rfl⟩ op
+
+/-- read as fixed points: sanitizing a reported name, tag key or tag value again changes nothing -/
+theorem reported_strings_fixed {cfg : Cfg} {sc : SanCfg} (hsan : cfg.san = some sc)
+    {pfx sep : Bytes} {tags : TagMap} {st : St} (hr : Reach cfg pfx sep tags st) (op : Op) :
+    ∀ e ∈ outEvents (step st op).2, ∀ n t, eventNameTags e = some (n, t) →
+      sanName cfg n = n ∧ ∀ kv ∈ t, sanKey cfg kv.1 = kv.1 ∧ sanValue cfg kv.2 = kv.2 := by
+  intro e he n t hnt
+  obtain ⟨h1, h2⟩ := reported_strings_sanitized hsan hr op e he n t hnt
+  simp only [sanName, sanKey, sanValue, hsan]
+  exact ⟨(clean_iff_fixed _ _ _).mp h1,
+    fun kv hkv => ⟨(clean_iff_fixed _ _ _).mp (h2 kv hkv).1, (clean_iff_fixed _ _ _).mp (h2 kv hkv).2⟩⟩
+
+/-- the pieces themselves, in every reachable state: the separator, the prefix (root prefix joined with the
+subscope names), the tags and every stored metric name of every scope, and the identity kept by every timer
+handle are sanitized -/
+theorem stored_strings_sanitized {cfg : Cfg} {sc : SanCfg} (hsan : cfg.san = some sc)
+    {pfx sep : Bytes} {tags : TagMap} {st : St} (hr : Reach cfg pfx sep tags st) :
+    Clean sc.name sc.rep st.sep ∧
+    (∀ sid s, getScope st sid = some s →
+      Clean sc.name sc.rep s.pfx ∧
+      (∀ kv ∈ s.tags, Clean sc.key sc.rep kv.1 ∧ Clean sc.value sc.rep kv.2) ∧
+      ∀ x ∈ s.metrics, Clean sc.name sc.rep (metricName x.2)) ∧
+    (∀ id nm tg, st.timers.lookup id = some (nm, tg) →
+      Clean sc.name sc.rep nm ∧ ∀ kv ∈ tg, Clean sc.key sc.rep kv.1 ∧ Clean sc.value sc.rep kv.2) := by
+  have h := reach_ok (sanOK_clean hsan) hr
+  exact ⟨h.sep, fun _ _ hg => h.getScope hg,
+    fun id nm tg hl => h.timers (id, (nm, tg)) (mem_of_lookup_eq_some hl)⟩
+
+/-! non-vacuity: names may contain `a`–`z` and `.`, tag keys and values `a`–`z`, replacement `_`.  Root prefix
+`a`, default separator; `SubScope("b-")`, `Tagged({"k-": "v"})`, `Counter("c!")`, `Inc(5)`, then a report:
+the sanitizer changes the subscope name, the tag key and the metric name, and the reporter is handed
+`a.b_.c_` with `{k_: v}`. -/
+namespace Example
+def nameC : ValidChars := { ranges := [(97, 122)], chars := [46] }
+def tagC : ValidChars := { ranges := [(97, 122)], chars := [] }
+def sc : SanCfg := { name := nameC, key := tagC, value := tagC, rep := 95 }
+def cfg : Cfg := { san := some sc, kind := .plain, closable := false, shards := 1, defaultBuckets := none }
+def ops : List Op := [.sub 0 [98, 45] 0, .tagged 1 [([107, 45], [118])] 0, .counter 2 [99, 33], .inc 0 5]
+def st : St := runOps (mkRoot cfg [97] [] []) ops
+
+/-- the sanitizer really changes the three requested strings -/
+example : sanName cfg [98, 45] = [98, 95] ∧ sanKey cfg [107, 45] = [107, 95] ∧
+    sanName cfg [99, 33] = [99, 95] := by decide +kernel
+
+/-- what the reporter sees: one counter event `a.b_.c_ {k_: v}` (and the flush, which carries nothing) -/
+example : (outEvents (step st .report).2).filterMap eventNameTags =
+    [([97, 46, 98, 95, 46, 99, 95], [([107, 95], [118])])] := by decide +kernel
+
+/-- … and the theorem applies to it -/
+example : ∀ e ∈ outEvents (step st .report).2, ∀ n t, eventNameTags e = some (n, t) →
+    Clean nameC 95 n ∧ ∀ kv ∈ t, Clean tagC 95 kv.1 ∧ Clean tagC 95 kv.2 :=
+  reported_strings_sanitized_run (cfg := cfg) (sc := sc) rfl [97] [] [] ops .report
+end Example
+
+end Tally.Props.C06
